@@ -40,8 +40,11 @@ type wireEnv struct {
 	flags lbFlags
 }
 
-func openWire(pass string) (*wireEnv, error) {
-	e := &wireEnv{pass: pass, a: conn.NewStdNetBind(), rx: map[string]*net.UDPConn{}, ch: make(chan rxItem, 4096)}
+func openWire(pass string) (*wireEnv, error) { return openWireBind(pass, conn.NewStdNetBind()) }
+
+// openWireBind: the sending bind is given (it may have been open and closed before).
+func openWireBind(pass string, a conn.Bind) (*wireEnv, error) {
+	e := &wireEnv{pass: pass, a: a, rx: map[string]*net.UDPConn{}, ch: make(chan rxItem, 4096)}
 	_, port, err := e.a.Open(0)
 	if err != nil {
 		return nil, err
